@@ -545,3 +545,33 @@ func halvingData(r *gen.Rand, top, pad int) []byte {
 	out := append(bytes.Repeat([]byte{byte(perm[0])}, pad), base...)
 	return append(out, byte(perm[200]), byte(perm[201]), byte(perm[202]))
 }
+
+// handBuiltGzipMember assembles a gzip member with FHCRC (and maybe FTEXT and
+// the optional fields), which no Go writer emits.
+func handBuiltGzipMember(r *gen.Rand, payload []byte, level int) []byte {
+	flg := byte(2) | byte(r.Intn(2))
+	var extra, name, comment []byte
+	if r.Bool() {
+		flg |= 4
+		extra = r.Bytes(r.Range(0, 20))
+	}
+	if r.Bool() {
+		flg |= 8
+		name = []byte("name\x00")
+	}
+	if r.Bool() {
+		flg |= 16
+		comment = []byte("a comment\x00")
+	}
+	hdr := []byte{0x1f, 0x8b, 8, flg, byte(r.Intn(256)), 0, 0, 0, byte(r.Pick(0, 2, 4)), byte(r.Intn(256))}
+	if flg&4 != 0 {
+		hdr = append(hdr, byte(len(extra)), byte(len(extra)>>8))
+		hdr = append(hdr, extra...)
+	}
+	hdr = append(hdr, name...)
+	hdr = append(hdr, comment...)
+	c16 := uint16(crc32.ChecksumIEEE(hdr))
+	hdr = append(hdr, byte(c16), byte(c16>>8))
+	out := append(hdr, encodeStd(payload, level, nil)...)
+	return append(out, gzipTrailer(payload)...)
+}
